@@ -109,6 +109,11 @@ def mutate(cls, m):
         return y
     if mut == 'other':
         return make((cat, m['part']))
+    if mut == 'idform':
+        # the same ids in another container: a tuple on one edge, an integer array on the other
+        for j, e in enumerate([y] if cat != 'graph' else y._edges):
+            e.vertex_ids = tuple(e.vertex_ids) if j % 2 == 0 else np.array(e.vertex_ids, dtype=np.int64)
+        return y
     if mut == 'perturb':
         tol = float(m['tol'])
         if cat == 'custom' and m['part'] == 'est' and k == 'float':
@@ -269,6 +274,9 @@ def _one(run, m, dirn, expected):
         run.skip('mutated graph not constructible')
         return
     tol = float(m['tol'])
+    if cls[0] == 'vertex' and run.replayed % 2 == 1:
+        # one of the two vertices belongs to a Graph (it carries the bookkeeping of that graph), the other is free-standing
+        Graph([], [Vertex(99, mkpose('SE2')), x])
     if run.replayed % 2 == 0 and cls[0] in ('graph', 'odo', 'lm', 'custom'):
         # History dimension: both objects have been evaluated before they are compared (a comparison must depend on the compared content
         # only, not on cached results of earlier calls)
